@@ -101,5 +101,6 @@ def verify_file(repo: str, relpath: str, only=None, timeout_ms: int = 10000, bot
         except RecursionError:
             vcs, err = ex.vcs, "recursion limit in the symbolic executor"
         discharge(vcs, timeout_ms, both)
-        out[name] = {"vcs": vcs, "unsupported": err, "seconds": time.time() - t0, "stats": ex.stats, "renamed": renamed.get(name)}
+        out[name] = {"vcs": vcs, "unsupported": err, "seconds": time.time() - t0, "stats": ex.stats, "renamed": renamed.get(name),
+                     "assumptions": sorted(getattr(ex, "assumptions_used", ()))}
     return out
